@@ -59,6 +59,7 @@ type Obs struct {
 	GKeys   []uint32     `json:"gkeys"`  // heights with a generator keys entry
 	Gens    []GenProbe   `json:"gens"`   // GetGeneratorKeys at probe heights
 	At      [][2]uint32  `json:"at"`     // (slot, address of Generators.AtTimestamp) for the generators of tip+1
+	Nexts   [][2]int64   `json:"nexts"`  // NextHeightBFTParameters at probe heights: (height, answer or -1)
 	Params  []ParamProbe `json:"params"` // GetBFTParameters at probe heights
 	VHash   bool         `json:"vhash"`  // every probed validatorsHash equals the independently computed LIP-0058 hash
 }
@@ -183,6 +184,7 @@ type Node struct {
 	dbase  *db.DB
 	store  *diffdb.Database
 	diffs  []*diffdb.Diff
+	gh     uint32
 }
 
 func (n *Node) Close() { n.dbase.Close() }
@@ -214,7 +216,7 @@ func NewNode(c *Case) (*Node, bool) {
 	if err != nil {
 		panic(err)
 	}
-	n := &Node{Batch: c.Batch, commit: c.Commit, m: liskbft.NewModule(), dbase: database}
+	n := &Node{Batch: c.Batch, commit: c.Commit, m: liskbft.NewModule(), dbase: database, gh: c.GH}
 	if err := n.m.Init(c.Batch); err != nil {
 		panic(err)
 	}
@@ -344,6 +346,19 @@ func (n *Node) Apply(b Block) Obs {
 				p.Addrs = append(p.Addrs, AddrN(g.Address()))
 			}
 			o.Gens = append(o.Gens, p)
+		}
+		// production asks at maxHeightCertified+1, where several pending changes may lie above: probe there and below the window
+		o.Nexts = [][2]int64{}
+		low := uint32(0)
+		if oldest > 0 {
+			low = oldest - 1
+		}
+		for _, h := range []uint32{b.H, low, o.Heights[2], o.Heights[2] + 1, 0} {
+			ans := int64(-1)
+			if v, err := m.API().NextHeightBFTParameters(store, h); err == nil {
+				ans = int64(v)
+			}
+			o.Nexts = append(o.Nexts, [2]int64{int64(h), ans})
 		}
 		o.Params = []ParamProbe{}
 		o.VHash = true
